@@ -33,7 +33,7 @@ TX_KINDS = ["PlanAdd", "PlanModify", "PlanDel", "SubBuy", "SubBuyAdvance", "SubA
 
 def plan(ctx, pid):
     """number of histories per family (quick total >= 100)"""
-    quick = {"all": 40, "renew": 28, "stake": 18, "iprpc": 14}
+    quick = {"all": 36, "renew": 26, "stake": 18, "iprpc": 20}
     thorough = {"all": 200, "renew": 120, "stake": 90, "iprpc": 60}
     base = quick if ctx.quick else thorough
     # VERIF_HIST_SCALE (default 1) shrinks the number of histories; used only for the mutant self-tests on a busy machine
